@@ -83,8 +83,7 @@ inductive Shape (sub : Int → Dur → Int) (now : Int) (visit : List PSnap) (la
   | ids (hargs : o.args ≠ [])
       (hne : ∀ e ∈ findAllIds o.filter latestRes o.args, ∀ k, e ≠ .err k) :
       Shape sub now visit latestRes failing o
-        (removal o failing [] (dedup ((findAllIds o.filter latestRes o.args).filterMap
-          fun e => match e with | .snap n => some n | _ => none)))
+        (removal o failing [] (dedup (snapIds (findAllIds o.filter latestRes o.args))))
   | policy (hargs : o.args = [])
       (hguard : ¬ (o.policy.empty = true ∧ ¬ (o.unsafeAllowRemoveAll = true ∧ o.filter.empty = false)))
       (reports : List GroupReport)
@@ -192,5 +191,113 @@ theorem runForget_shape (sub : Int → Dur → Int) (now : Int) (visit : List PS
                 simp only [List.mem_filterMap, List.mem_map, id_eq] at hr
                 obtain ⟨x, ⟨g, hg, hx⟩, rfl⟩ := hr
                 exact ⟨g, hg, hx⟩
+
+
+section
+variable {sub : Int → Dur → Int} {now : Int} {visit : List PSnap} {latestRes : Option Snap}
+  {failing : List Nat} {o : Opts} {r : Run}
+
+theorem shape_dry (hs : Shape sub now visit latestRes failing o r) (h : o.dryRun = true) : r.removed = [] := by
+  cases hs with
+  | aborted oc _ _ => rfl
+  | ids _ _ => exact removal_dry _ _ _ _ h
+  | policy _ _ reports _ _ => exact removal_dry _ _ _ _ h
+
+theorem shape_abort (hs : Shape sub now visit latestRes failing o r)
+    (h : r.outcome ≠ .ok) (h' : r.outcome ≠ .error "remove-failed") : r.removed = [] ∧ r.groups = [] := by
+  cases hs with
+  | aborted oc _ _ => exact ⟨rfl, rfl⟩
+  | ids _ _ =>
+    rcases removal_outcome o failing [] _ with e | e
+    · exact absurd e h
+    · exact absurd e h'
+  | policy _ _ reports _ _ =>
+    rcases removal_outcome o failing reports _ with e | e
+    · exact absurd e h
+    · exact absurd e h'
+
+/-- what is removed was in the remove set; on success (no dry run) everything in it is removed -/
+theorem shape_removed (hs : Shape sub now visit latestRes failing o r) :
+    (∀ n ∈ r.removed, n ∈ r.removeSet) ∧
+    (r.outcome = .ok → o.dryRun = false → r.removed = r.removeSet) := by
+  cases hs with
+  | aborted oc _ _ => exact ⟨by simp [abort], fun _ _ => rfl⟩
+  | ids _ _ =>
+    refine ⟨fun n hn => ?_, fun h hd => ?_⟩
+    · rw [(removal_groups _ _ _ _).2]; exact removal_removed_mem _ _ _ _ n hn
+    · rw [(removal_groups _ _ _ _).2]; exact removal_ok _ _ _ _ hd h
+  | policy _ _ reports _ _ =>
+    refine ⟨fun n hn => ?_, fun h hd => ?_⟩
+    · rw [(removal_groups _ _ _ _).2]; exact removal_removed_mem _ _ _ _ n hn
+    · rw [(removal_groups _ _ _ _).2]; exact removal_ok _ _ _ _ hd h
+
+/-- policy mode: the remove set is exactly what the groups report as removed -/
+theorem shape_reported (hs : Shape sub now visit latestRes failing o r) (hargs : o.args = []) (n : Nat) :
+    n ∈ r.removeSet ↔ ∃ g ∈ r.groups, n ∈ g.remove := by
+  cases hs with
+  | aborted oc _ _ => simp [abort]
+  | ids ha _ => exact absurd hargs ha
+  | policy _ _ reports _ _ =>
+    rw [(removal_groups _ _ _ _).1, (removal_groups _ _ _ _).2, dedup_mem]
+    simp [List.mem_flatMap]
+
+/-- explicit ids: the remove set is exactly the named snapshots plus the resolved `latest` -/
+theorem shape_ids (hs : Shape sub now visit latestRes failing o r) (hargs : o.args ≠ []) (n : Nat) :
+    (n ∈ r.removeSet → Arg.id n false ∈ o.args ∨ (Arg.latest ∈ o.args ∧ ∃ s, latestRes = some s ∧ s.id = n)) ∧
+    (r.outcome = .ok ∨ r.outcome = .error "remove-failed" → Arg.id n false ∈ o.args → n ∈ r.removeSet) := by
+  have key := Restic.Props.C24.findAllIds_spec o.filter latestRes o.args n
+  have hmem : n ∈ dedup (snapIds (findAllIds o.filter latestRes o.args)) ↔
+      Ev.snap n ∈ findAllIds o.filter latestRes o.args := by
+    rw [dedup_mem, snapIds, List.mem_filterMap]
+    constructor
+    · rintro ⟨e, he, hn⟩
+      cases e with
+      | snap m => simp at hn; subst hn; exact he
+      | err k => simp at hn
+    · intro h; exact ⟨_, h, rfl⟩
+  cases hs with
+  | aborted oc h1 h2 =>
+    refine ⟨by simp [abort], ?_⟩
+    rintro (h | h)
+    · exact absurd h h1
+    · exact absurd h h2
+  | ids _ _ =>
+    rw [(removal_groups _ _ _ _).2, hmem]
+    exact ⟨key.1, fun _ h => key.2 h⟩
+  | policy ha _ reports _ _ => exact absurd ha hargs
+
+/-- policy mode with a non-empty policy: every reported group keeps at least one snapshot -/
+theorem shape_keep_nonempty (hs : Shape sub now visit latestRes failing o r) (hargs : o.args = [])
+    (hp : o.policy.empty = false) : ∀ g ∈ r.groups, g.keep ≠ [] := by
+  cases hs with
+  | aborted oc _ _ => simp [abort]
+  | ids ha _ => exact absurd hargs ha
+  | policy _ _ reports _ hrep' =>
+    rw [(removal_groups _ _ _ _).1]
+    intro g hg
+    obtain ⟨grp, _, hd⟩ := hrep' g hg
+    unfold groupDecision at hd
+    split at hd
+    · cases hd
+    · dsimp only at hd
+      split at hd
+      · cases hd
+      · rename_i hcond
+        injection hd with hd
+        subst hd
+        simp only [hp, Bool.not_false, Bool.true_and, Bool.not_eq_true, List.isEmpty_eq_false_iff] at hcond
+        exact hcond
+
+/-- the empty policy removes nothing unless `--unsafe-allow-remove-all` comes with a filter -/
+theorem shape_empty_policy (hs : Shape sub now visit latestRes failing o r) (hargs : o.args = [])
+    (hp : o.policy.empty = true) (hu : ¬ (o.unsafeAllowRemoveAll = true ∧ o.filter.empty = false)) :
+    r.removed = [] ∧ r.outcome ≠ .ok := by
+  cases hs with
+  | aborted oc h _ => exact ⟨rfl, h⟩
+  | ids ha _ => exact absurd hargs ha
+  | policy _ hguard reports _ _ => exact absurd ⟨hp, hu⟩ hguard
+
+end
+
 
 end Restic.Props.C23
